@@ -3,8 +3,8 @@ package c05
 
 import (
 	"fmt"
-	"strings"
 	"sort"
+	"strings"
 	"sync"
 	"testing"
 	"testing/synctest"
@@ -29,12 +29,12 @@ type Ev struct {
 }
 
 type Plan struct {
-	Seed     uint64
-	Conf     cluster.Conf
-	Faults   cluster.Faults
-	FaultMs  int // duration of the fault phase after formation (formation takes the first 3 s)
-	Events   []Ev
-	JoinVia  []int
+	Seed    uint64
+	Conf    cluster.Conf
+	Faults  cluster.Faults
+	FaultMs int // duration of the fault phase after formation (formation takes the first 3 s)
+	Events  []Ev
+	JoinVia []int
 }
 
 func genPlan(t *rapid.T) Plan {
